@@ -200,6 +200,43 @@ func (m *model) enabled(engine string, b bounds) []next {
 	return out
 }
 
+// completion is the shortest legal call sequence from m to a built node (nil once built).
+func completion(m *model, engine string) []Call {
+	if m.done {
+		if m.built < 1 {
+			return []Call{"Build"}
+		}
+		return nil
+	}
+	if m.built >= 1 {
+		return nil // the bound on Build calls is used up on this path: nothing to observe with
+	}
+	c := m.clone()
+	var out []Call
+	do := func(call Call) {
+		out = append(out, call)
+		c.apply(call)
+	}
+	for !c.done {
+		switch {
+		case len(c.stack) == 0:
+			switch rootKind(engine) {
+			case "map":
+				do("BeginMap")
+			case "list":
+				do("BeginList")
+			default:
+				do("AssignInt")
+			}
+		case c.stack[len(c.stack)-1].isMap && c.stack[len(c.stack)-1].hasK:
+			do("AssignInt")
+		default:
+			do("Finish")
+		}
+	}
+	return append(out, "Build")
+}
+
 // apply advances the model by a call that was accepted.
 func (m *model) apply(c Call) {
 	s := string(c)
@@ -454,11 +491,24 @@ func explore(r *core.Run, engine string, b bounds) {
 				}
 				k := m2.key()
 				mu.Lock()
-				if !seen[k] {
+				merged := seen[k]
+				if !merged {
 					seen[k] = true
 					local = append(local, node{calls})
 				}
 				mu.Unlock()
+				if merged {
+					// This path ends here because its model state was reached before by another path. What
+					// it left in the real builder is still observed: complete it the shortest legal way and
+					// compare the product with the model (two paths with one model state must build one value).
+					if comp := completion(m2, engine); comp != nil {
+						probe := append(append([]Call(nil), calls...), comp...)
+						pfs, _, _ := Run(engine, probe, b)
+						ltrans++
+						r.Traces.Add(1)
+						r.Report("calls", Case{engine, probe}, pfs)
+					}
+				}
 			}
 			mu.Lock()
 			next = append(next, local...)
